@@ -101,3 +101,36 @@ def flows_to_return(body, bb, idx, place):
             if (nb, True) not in seen:
                 st.append((nb, 0))
     return False
+
+
+def named_local_defs(body, F, name):
+    """formatted definitions of the user variable(s) called `name`"""
+    out = []
+    for l in body.local_by_name(name):
+        for d in body.defs().get(l, []):
+            if d[0] == 'stmt':
+                out.append(fmt_sym(body, F.sym_rvalue(d[3], 0)))
+            elif d[0] == 'call':
+                out.append(fmt_sym(body, F.sym_call(d[2])))
+    return out
+
+
+def loop_source_of(body, F, sym):
+    """for a value of the form ..Iterator::next(&iter)@Some.0..: the formatted argument of the into_iter/iter call that
+    produced `iter` (what the loop iterates over), else None"""
+    import re as _re
+    txt = fmt_sym(body, sym)
+    m = _re.search(r'Iterator::next\(&(\w+)\(_(\d+)\)\)', txt)
+    if not m:
+        return None
+    loc = int(m.group(2))
+    for _ in range(4):
+        ds = body.defs().get(loc, [])
+        if len(ds) == 1 and ds[0][0] == 'stmt' and ds[0][3][0] == 'use' and ds[0][3][1][0] in ('cp', 'mv') and not ds[0][3][1][1][1]:
+            loc = ds[0][3][1][1][0]
+        elif len(ds) == 1 and ds[0][0] == 'call':
+            c = ds[0][2]
+            return c.callee.rsplit('::', 1)[-1] + '(' + ', '.join(fmt_sym(body, F.sym_operand(a)) for a in c.args) + ')'
+        else:
+            break
+    return None
